@@ -2,6 +2,7 @@
 from __future__ import annotations
 
 from kfv.core import Ctx
+from kfv.rules import tensor_rules as TR
 from kfv.rules import coh_rules as C
 
 TECHNIQUE = ('typestate shape of the future slots and of every communication result, coherence of root/group/factor arguments at the '
@@ -17,6 +18,7 @@ EXPLANATION = (
 
 def run(ctx: Ctx) -> None:
     ctx.do(C.rule_ts_fut)
+    ctx.do(TR.rule_tt_comm)
     ctx.do(C.rule_aff_avg)
     ctx.do(C.rule_coh_src)
     ctx.do(C.rule_dom_phase)
